@@ -401,7 +401,30 @@ pub fn run(tier: &str, seed: u64) -> Report {
   for i in 0..n {
     let p_bad = [0, 10, 30][i % 3];
     let d = gen_decl(&mut rng, &cx, format!("d{}", i), true, p_bad);
-    let Some(req) = erase_request(&d) else { continue };
+    let Some(req) = erase_request(&d) else {
+      // declaration kinds the model of the transform does not cover (namespaces, interfaces, type
+      // aliases, enums): the statement's clauses are checked on the emitted tree
+      if matches!(d.kind, DeclKind::Namespace { .. }) {
+        let w = single_decl_world(&d);
+        let replay = json!({"decl": describe_decl(&d), "world": w.describe()});
+        report.evaluations += 1;
+        let r = run_fast_check(&w, None, false);
+        let url = FcWorld::url(&w.pkgs[0], "/mod.ts");
+        match r.slots.get(&url) {
+          Some(FcSlot::Module { text, .. }) => {
+            logic_oracle(&url, text, &mut report, &replay);
+            if text.contains("inside a namespace") {
+              report.fail("oracle", "non-declaration-statement-survives", format!("{}: a statement inside the namespace survives\n{}", url, text), replay.clone());
+            }
+            report.count("namespace:emitted");
+            report.nontrivial.insert(format!("namespace/ok/{}", render_decl(&d).lines().next().unwrap_or("").matches('.').count()));
+          }
+          Some(FcSlot::Diagnostics(_)) => report.count("namespace:diagnostic"),
+          _ => report.fail("oracle", "no-fast-check-result", "namespace declaration".into(), replay),
+        }
+      }
+      continue;
+    };
     let w = single_decl_world(&d);
     let replay = json!({"decl": describe_decl(&d), "world": w.describe()});
     batch.descs.push(replay.clone());
